@@ -133,6 +133,9 @@ typedef struct {
     const char *file_kind;     /* "sync" "twr" "copy" "repaired" for keys */
     const char *prop_stats;    /* property charged for statistics violations (default C02) */
     int errors_ok;             /* an error return from a read / statistics call is an acceptable outcome (C04) */
+    const char *fresh_path;    /* when set, one statistics request in fresh_den is made through a reader opened for that request alone:
+                                * the first request of a reader meets buffers no earlier request has grown */
+    int fresh_den;
     int tolerate_omitted_tail; /* the rounded-down length of a signal whose partial final block was omitted on request is the
                                 * C15 known finding; checks whose subject is something else (C06) count it instead of reporting it */
 } verify_opts_t;
